@@ -162,10 +162,16 @@ func (p *parser) alias() ast.Expression {
 
 	// generic aliases may not be called with typeSensitive = false
 	if funcAlias, ok := mostFitting.alias.(*ast.FuncAlias); ok && ast.IsGeneric(funcAlias.Func) {
+		// checkAlias may have returned before consuming any token (reference parameter at the start of the alias),
+		// the range must not end before it starts
+		endTok := &p.tokens[start]
+		if p.cur > start {
+			endTok = p.previous()
+		}
 		p.errVal(ddperror.Error{
 			Code:                 ddperror.SEM_ERROR_INSTANTIATING_GENERIC_FUNCTION,
 			Level:                ddperror.LEVEL_ERROR,
-			Range:                token.NewRange(&p.tokens[start], p.previous()),
+			Range:                token.NewRange(&p.tokens[start], endTok),
 			Msg:                  fmt.Sprintf("Es gab Fehler beim Instanziieren der generischen Funktion '%s'", funcAlias.Func.Name()),
 			File:                 p.module.FileName,
 			WrappedGenericErrors: mostFitting.errs,
